@@ -155,7 +155,7 @@ def conc_model_check(pid):
     return out
 
 
-def conc_validate(pid, name, lines, max_rejects=3, timeout=240):
+def conc_validate(pid, name, lines, max_rejects=3, timeout=240, cfg="Trace_AlertsConc.cfg"):
     """TLC decides which of the concatenated histories are linearizable.  Returns (rejects, states, wall):
     rejects = [(run, index of the unexplainable event within the history, event, history lines)]."""
     rejects, states, t0 = [], 0, time.time()
@@ -164,7 +164,7 @@ def conc_validate(pid, name, lines, max_rejects=3, timeout=240):
         os.makedirs(d, exist_ok=True)
         tp = os.path.join(d, "trace.ndjson")
         open(tp, "w").write("\n".join(lines) + "\n")
-        r = vlib.tlc(pid, "trace_conc_" + name, "Trace_AlertsConc", "Trace_AlertsConc.cfg", workers=1, timeout=timeout, files=[tp])
+        r = vlib.tlc(pid, "trace_conc_" + name, "Trace_AlertsConc", cfg, workers=1, timeout=timeout, files=[tp])
         states += r.distinct or 0
         if r.timed_out:
             raise vlib.Inconclusive("Trace_AlertsConc (%s) timed out" % name)
@@ -227,7 +227,8 @@ def conc_stage(pid, tier, v, binp):
     """Concurrent histories of the real provider + API, judged by TLC (linearizability) and by the oracle."""
     wd = os.path.join(vlib.OUT, pid)
     thorough = tier == "thorough"
-    n_hist, n_tlc, chunks = (24000, 8000, 8) if thorough else (3200, 1200, 4)
+    # (TLC cannot write states deeper than 65535 to its disk queue: a chunk stays below ~45000 events + Lin steps)
+    n_hist, n_tlc, per_chunk, side = (24000, 8000, 400, 8) if thorough else (3200, 800, 200, 4)
     tp, rp = os.path.join(wd, "conc_trace.ndjson"), os.path.join(wd, "conc_result.json")
     t0 = time.time()
     rc, txt = vlib.go_run_test(binp, "TestConc$", ["-trace", tp, "-out", rp, "-n", str(n_hist), "-seed", str(vlib.seed()),
@@ -260,29 +261,30 @@ def conc_stage(pid, tier, v, binp):
         by_run[run].append(line)
     order.sort()
     pick = order[:n_tlc]
-    parts = [pick[i::chunks] for i in range(chunks)]
-    pool = ThreadPoolExecutor(max_workers=chunks)
+    parts = [pick[i:i + per_chunk] for i in range(0, len(pick), per_chunk)]
+    t1 = time.time()
+    pool = ThreadPoolExecutor(max_workers=side)
     futs = [pool.submit(conc_validate, pid, "c%d" % i, [l for r in part for l in by_run[r]]) for i, part in enumerate(parts) if part]
     try:
         outs = [f.result() for f in futs]
     finally:
         pool.shutdown(wait=True)
     states = sum(o[1] for o in outs)
-    tlc_wall = max(o[2] for o in outs) if outs else 0
+    tlc_wall = time.time() - t1
     rejects = [r for o in outs for r in o[0]]
-    log("  conc: TLC searched the linearizations of %d histories (%d states, %d runs side by side, %.1fs): %d not linearizable" %
-        (len(pick), states, len(futs), tlc_wall, len(rejects)))
+    log("  conc: TLC searched the linearizations of %d histories (%d states, %d runs, %d side by side, %.1fs): %d not linearizable" %
+        (len(pick), states, len(futs), side, tlc_wall, len(rejects)))
 
     def artefact(run, hist_lines, note, idx=None):
         p = os.path.join(wd, "conc_history_%d.json" % run)
         json.dump({"conc_history": [json.loads(x) for x in hist_lines], "rejected_event": idx, "note": note, "seed": vlib.seed()}, open(p, "w"), indent=0)
         return p
 
-    def revalidate(run, hist_lines):
-        rj, _, _ = conc_validate(pid, "re%d" % run, list(hist_lines), max_rejects=1)
+    def revalidate(run, hist_lines, cfg="Trace_AlertsConc.cfg"):
+        rj, _, _ = conc_validate(pid, "re%d" % run, list(hist_lines), max_rejects=1, cfg=cfg)
         return rj[0] if rj else None
 
-    reported = set()
+    reported, drift = set(), []
     # a history no linearization explains: one re-validation (alone, fresh TLC run) excludes tool trouble
     for run, idx, ev, hist_lines in rejects[:4]:
         again = revalidate(run, hist_lines)
@@ -290,11 +292,36 @@ def conc_stage(pid, tier, v, binp):
             raise vlib.Inconclusive("history %d was rejected at event %d in the concatenated trace but %s when validated alone: tool trouble" %
                                     (run, idx, "accepted" if again is None else "rejected at event %d" % again[1]))
         orc = conc_oracle([json.loads(x) for x in hist_lines])
-        note = ("concurrent history %d of the real provider + API is not linearizable (AlertsConc.tla: Put = store + fan-out to every subscriber in one step "
-                "between call and return; a subscriber receives the versions of one label set in the order the store applied them): no order of the overlapping "
-                "operations explains event %d: %s%s" % (run, idx + 1, conc_describe(ev), ("; at quiescence " + orc[0]) if orc else ""))
+        # the statements do not make a batch atomic: the verdict is taken with one Lin step per alert
+        weak = revalidate(run, hist_lines, "Trace_AlertsConc_alert.cfg")
+        if weak is None and not orc:
+            drift.append(run)
+            continue
+        if weak is not None:
+            idx, ev = weak[1], weak[2]
+        note = ("concurrent history %d of the real provider + API is not linearizable (AlertsConc.tla: every alert of a Put is stored and written to the channel of every "
+                "subscriber in one step between call and return, in body order; a subscriber receives the versions of one label set in the order the store applied them): "
+                "no order of the overlapping operations explains event %d: %s%s" % (run, idx + 1, conc_describe(ev), ("; at quiescence " + orc[0]) if orc else ""))
         v.violation(note, [artefact(run, hist_lines, note, idx)])
         reported.add(run)
+    if drift:
+        # the code no longer applies a batch in one critical section; judge a sample with the weaker specification only
+        v.notes.append("DRIFT property=%s %d concurrent histories (e.g. %s) are linearizable only if a Put takes effect alert by alert (somebody saw part of a batch): the "
+                       "provider no longer applies a batch in one critical section; batch atomicity is not part of the statement: not judged" % (pid, len(drift), drift[:3]))
+        sample = pick[:200]
+        pool2 = ThreadPoolExecutor(max_workers=4)
+        wf = [pool2.submit(conc_validate, pid, "w%d" % i, [l for r in sample[i:i + 50] for l in by_run[r]], 2, 400, "Trace_AlertsConc_alert.cfg")
+              for i in range(0, len(sample), 50)]
+        weak_rejects = [x for f in wf for x in f.result()[0]]
+        pool2.shutdown(wait=True)
+        for run, idx, ev, hist_lines in weak_rejects:
+            if True:
+                if run in reported or len(reported) >= 6:
+                    continue
+                note = ("concurrent history %d of the real provider + API is not linearizable even if a Put takes effect alert by alert (AlertsConc.tla): no order of the "
+                        "overlapping operations explains event %d: %s" % (run, idx + 1, conc_describe(ev)))
+                v.violation(note, [artefact(run, hist_lines, note, idx)])
+                reported.add(run)
     # the oracle: last version a subscriber learned differs from the stored one at quiescence
     n_or = 0
     for m in res["mismatches"]:
@@ -302,7 +329,7 @@ def conc_stage(pid, tier, v, binp):
             continue
         hist_lines = [json.dumps(x, separators=(",", ":")) for x in m["replay"]]
         orc = conc_oracle(m["replay"])
-        again = revalidate(m["case"], hist_lines)
+        again = revalidate(m["case"], hist_lines, "Trace_AlertsConc_alert.cfg")
         if not orc or again is None:
             raise vlib.Inconclusive("history %d: the harness reports '%s' but the re-validation does not confirm it (recomputed oracle: %s, TLC: %s): tool trouble" %
                                     (m["case"], m["what"], orc[:1], "accepted" if again is None else "rejected"))
@@ -324,8 +351,9 @@ def conc_stage(pid, tier, v, binp):
     return {"histories_recorded": res["cases"], "events": res["steps"], "operations": cnt.get("ops", 0),
             "histories_checked_by_oracle": res["cases"], "histories_linearized_by_tlc": len(pick), "tlc_states": states,
             "tlc_runs": len(futs), "tlc_wall_s": round(tlc_wall, 1), "record_wall_s": round(go_wall, 1),
-            "not_linearizable": len(rejects), "oracle_failures": cnt.get("oracle_failures", 0),
-            "counters": {k: cnt.get(k, 0) for k in sorted(need)}, "sample": (res["samples"] or [None])[0]}
+            "not_linearizable": len(rejects) - len(drift), "linearizable_only_alert_by_alert": len(drift), "oracle_failures": cnt.get("oracle_failures", 0),
+            "counters": {k: cnt.get(k, 0) for k in sorted(need)},
+            "sample_history_first_events": ((res["samples"] or [[]])[0])[:16]}
 
 
 # ------------------------------------------------------------------ the check
@@ -360,6 +388,10 @@ def run(tier, v):
     #    ... and the clauses decide the family: the other reading of the stamp comparison is refuted
     f_sw = pool.submit(vlib.tlc, PID, "mc_swap", "MC_Alerts", "MC_Alerts_swap.cfg", workers=2, timeout=300)
     binp = vlib.go_build_test(PID, "c13")
+    # 2b. the provider as a concurrent object: design-level model checking and recorded concurrent histories
+    cpool = ThreadPoolExecutor(max_workers=2)
+    f_cmc = cpool.submit(conc_model_check, PID)
+    f_conc = cpool.submit(conc_stage, PID, tier, v, binp)
 
     # 3. ... replayed through the real handlers, as soon as each set is printed
     rpool = ThreadPoolExecutor(max_workers=3)
@@ -375,9 +407,11 @@ def run(tier, v):
             gens.append((name, g))
             results.append(r)
         mc, mcd, sw = f_mc.result(), f_mcd.result(), f_sw.result()
+        conc, cmc = f_conc.result(), f_cmc.result()
     finally:
         pool.shutdown(wait=True)
         rpool.shutdown(wait=True)
+        cpool.shutdown(wait=True)
     if sw.violated != "SubmissionOrder":
         raise vlib.Inconclusive("MC_Alerts_swap.cfg: expected TLC to refute SubmissionOrder when the earlier of two same-stamp submissions "
                                 "is taken as the younger one, got %s %s (see %s)" % (sw.violated, sw.error, sw.stdout_path))
@@ -412,11 +446,16 @@ def run(tier, v):
                        "the timeout flag under an explicit later end): not judged" % (PID, cnt["stamp_drift"]))
     if cnt.get("tie_drift", 0):
         v.notes.append("DRIFT property=%s %d behaviour(s) where the real code differs from Alerts.tla only in the reading of a comparison at equality (not judged; the specification is no longer exact there)" % (PID, cnt["tie_drift"]))
+    log("  conc: design level %s" % json.dumps(cmc))
+    mc_runs = {mc_cfg: [mc.distinct, mc.generated], "MC_Alerts_dup.cfg": [mcd.distinct, mcd.generated],
+               "MC_Alerts_swap.cfg": "SubmissionOrder refuted after %d states (expected)" % sw.generated}
+    mc_runs.update(cmc)
     coverage = {
-        "states": mc.distinct + mcd.distinct, "transitions": mc.generated + mcd.generated,
-        "mc_runs": {mc_cfg: [mc.distinct, mc.generated], "MC_Alerts_dup.cfg": [mcd.distinct, mcd.generated],
-                    "MC_Alerts_swap.cfg": "SubmissionOrder refuted after %d states (expected)" % sw.generated},
-        "traces_validated_against_impl": sum(r["cases"] for r in results),
+        "states": mc.distinct + mcd.distinct + sum(x[0] for x in cmc.values() if isinstance(x, list)),
+        "transitions": mc.generated + mcd.generated + sum(x[1] for x in cmc.values() if isinstance(x, list)),
+        "mc_runs": mc_runs,
+        "concurrent_histories": conc,
+        "traces_validated_against_impl": sum(r["cases"] for r in results) + conc["histories_linearized_by_tlc"],
         "replay_steps": sum(r["steps"] for r in results),
         "evaluations": sum(r["cases"] for r in results),
         "distinct_nontrivial": sum(r["nontrivial"] for r in results),
@@ -426,7 +465,9 @@ def run(tier, v):
                 "label set at one instant, as one body and as two requests + simulated behaviours of 40 steps) "
                 "replayed on a fresh real instance, every step compared; non-trivial = contains a batch with valid and invalid alerts (400 and the valid ones stored), "
                 "a submission whose stored start/end differ from its own (a merge kept an earlier start or another end), or a same-stamp pair whose outcome "
-                "the statement decides by submission order" % (4 if thorough else 3),
+                "the statement decides by submission order; in addition %d concurrent histories of one real provider + API (3-4 goroutines x 2-5 operations, 2-3 label sets, "
+                "versions fire / refresh with a later end / resolve, two to four subscribers one of them slow) checked by the quiescence oracle, %d of them searched for a "
+                "linearization by TLC (Trace_AlertsConc.tla)" % (4 if thorough else 3, conc["histories_recorded"], conc["histories_linearized_by_tlc"]),
         "mc_action_coverage": {a: g for a, (d, g) in mc.coverage.items() if a.startswith("Next@")},
         "samples": [trim_sample(r["samples"][0]) for r in results[1:] if r["samples"]],
         "exhaustive": True,
@@ -434,7 +475,11 @@ def run(tier, v):
                   "resolve_timeout 2, time 0..%d, batches of 1-2, GC at every instant and between instants; Gen: 3 label sets + 4 posted variants, batches of 1-3, "
                   "time 0..16, GC period in {1,2,3,5,none}, one silence switched on/off; equal stamps: MC_Alerts_dup.cfg all bodies [A, B] of one label set (same start/end ranges) "
                   "in every reachable state, Gen_AlertsDup all pairs with startsAt in {missing, now-2..now+2}, endsAt in {missing, now-2..now+2, now+4} on an empty store "
-                  "(one body / two requests at one instant), simulations: bodies of 2-3 with a duplicated label set (a third alert anywhere) and repeated requests at one instant" % (mc_cfg, 5 if thorough else 4),
+                  "(one body / two requests at one instant), simulations: bodies of 2-3 with a duplicated label set (a third alert anywhere) and repeated requests at one instant; "
+                  "concurrent stage: MC_AlertsConc 3 worker goroutines + GC ticker with fixed programs (a resolve racing a batch that ends with the same alert's refresh; "
+                  "Put against Subscribe and SlurpAndSubscribe), all interleavings; recorded histories: 3-4 goroutines x 2-5 operations (Put / POST batches of 1-3, Get, GET, "
+                  "Subscribe, SlurpAndSubscribe), 2-3 label sets, explicit start in {-4h,-3h} and end in {-2h,-1h,+2h,+4h,+6h}, slow subscriber's channel filled to 197-200 of 200 "
+                  "and drained in 0-2 steps of 1-4 before it runs free, GC period 20-420 us in a quarter of the histories" % (mc_cfg, 5 if thorough else 4),
     }
     assumptions = [
         "equal receive stamps (one label set twice in a body; two requests at one virtual instant) are replayed; meaning taken from the statement's 'sequence of "
@@ -448,6 +493,19 @@ def run(tier, v):
         "receivers: one fixed route tree (default receiver, one continue child, one plain child); routing in general is C07",
         "outcomes that depend only on the reading of a comparison at equality (t = endsAt, touching ranges) are accepted either way",
         "virtual time (testing/synctest) stands for the wall clock; the provider's GC runs on its real ticker",
+        "concurrent stage: real time and real goroutines, no gate inside provider.Put - which interleavings occur is up to the Go scheduler (measured per run: histories with two "
+        "overlapping Puts of one label set, with a Put blocked on the slow subscriber's full channel, with a Put overlapping a subscription; too few => Inconclusive); a race "
+        "window that never opens in the recorded histories is not covered",
+        "concurrent stage: linearizability is judged against AlertsConc.tla, where every alert of a Put takes effect (store and channel writes) in ONE step between the call "
+        "and the return, in body order (searched first with the whole batch as one step, as the code does; a history rejected that way gets its verdict from the search with one "
+        "step per alert - batch atomicity is not part of any statement), and "
+        "the delivery order is fixed per subscriber and LABEL SET (the order of different alerts in a channel is not part of any statement); events are ordered by one atomic "
+        "counter read just before a call and just after a return / receive, so a recorded interval contains the real one (never wall-clock merging)",
+        "concurrent stage: every submission carries explicit startsAt/endsAt whole hours away from the history's start, so merge outcomes do not depend on the clock; UpdatedAt "
+        "stamps are read before the provider mutex (as postAlertsHandler does) and enter the specification as data (rank), including the case stamp order != lock order; GET "
+        "/api/v2/alerts is compared without updatedAt (printed rounded)",
+        "concurrent stage: TLC searches linearizations for the first %d recorded histories; the remaining %d are judged by the quiescence oracle only (plus TLC for those the oracle flags)" %
+        (conc["histories_linearized_by_tlc"], conc["histories_recorded"] - conc["histories_linearized_by_tlc"]),
     ]
     return "model_checking", coverage, assumptions
 
@@ -456,6 +514,18 @@ def replay(path, v, pid=PID, pkg="c13", mode_test="TestReplay$"):
     data = json.load(open(path))
     wd = os.path.join(vlib.OUT, pid)
     binp = vlib.go_build_test(pid, pkg)
+    if isinstance(data, dict) and "conc_history" in data:
+        # a recorded concurrent history cannot be re-run (the schedule was the Go scheduler's): it is judged again
+        os.makedirs(wd, exist_ok=True)
+        hist = data["conc_history"]
+        rj, states, _ = conc_validate(pid, "replay", [json.dumps(x, separators=(",", ":")) for x in hist], max_rejects=1, cfg="Trace_AlertsConc_alert.cfg")
+        orc = conc_oracle(hist)
+        log("  recorded concurrent history (%d events): TLC %s (%d states); quiescence oracle: %s" %
+            (len(hist), ("finds no linearization, first unexplainable event %d: %s" % (rj[0][1] + 1, conc_describe(rj[0][2]))) if rj else "accepts", states, orc or "ok"))
+        if rj or orc:
+            v.violation("replay: recorded concurrent history is not linearizable with respect to AlertsConc.tla%s%s" %
+                        ((" (event %d: %s)" % (rj[0][1] + 1, conc_describe(rj[0][2]))) if rj else "", ("; " + orc[0]) if orc else ""), [path])
+        return
     if isinstance(data, dict) and "behaviour" in data:
         lib, beh = data["lib"], data["behaviour"]
     else:
